@@ -33,7 +33,7 @@ def replay(hists, nsess=3):
         with open(os.path.join(d, "t.ndjson"), "w") as fh:
             for ln in body:
                 fh.write(json.dumps(ln) + "\n")
-        tr = vlib.cfg_text(dict(NSessions=nsess, Routes=ROUTES, MaxSteps=99999, TraceFile="trace.ndjson"), spec="TraceSpec", postcondition="Report")
+        tr = vlib.cfg_text(dict(NSessions=max(nsess, 9), Routes=ROUTES, MaxSteps=99999, TraceFile="trace.ndjson"), spec="TraceSpec", postcondition="Report")
         r = vlib.tlc_validate("SessionsTrace", tr, os.path.join(d, "t.ndjson"))
         problems = []
         for b in r["allbad"]:
